@@ -48,7 +48,7 @@ func C05(tier string) {
 	r := ev.Begin("C05", tier, "exploration")
 	r.NotExhaustive()
 	r.Assume("well-formed files are built from typed descriptions; each grammar file and each quick field value is cross-validated by image/png, image/jpeg or x/image/webp DecodeConfig: a file the decoder rejects with a format error is dropped and counted as a generator fault, one it rejects as unsupported (e.g. some JPEG sampling factors, huge PNG pixel counts) is kept and compared with the description only")
-	r.Rule("PNG: 15 colour-type/bit-depth pairs x interlace x ancillary chunk sequences (depth <= 3 quick / <= 3 thorough over 9 chunk kinds incl. iCCP, PLTE, 9 KiB iTXt) and next-chunk headers at every alignment across the 4096/8192 read boundaries; width/height: walking ones/zeros over 31 bits, byte lanes 0..255 x 3 holds, all values < 2^16 (thorough: all 2^31-1 values per field); JPEG: SOF0/SOF2 x 1/3/4 components x sampling factors {1,2}^2 per component, segment sequences (<= 3 before SOF, <= 2 after) over 9 kinds, every APPn, every width and height 1..65535 x 3 holds; WebP: VP8 all 2^14 widths/heights x 3 holds x 16 scale-bit pairs, VP8L the same (thorough: all 2^28 pairs), VP8X walking bits + byte lanes (thorough: all 2^24 per field), all flag bytes; each through the specific loader and autometa; distinct = distinct (format, width, height, bits, structure) descriptions")
+	r.Rule("PNG: 15 colour-type/bit-depth pairs x interlace x ancillary chunk sequences (depth <= 3 quick / <= 3 thorough over 9 chunk kinds incl. iCCP, PLTE, 9 KiB iTXt) and next-chunk headers at every alignment across the 4096/8192 read boundaries; width/height: walking ones/zeros over 31 bits, byte lanes 0..255 x 3 holds, all values < 2^16 (thorough: all 2^31-1 values per field); JPEG: SOF0/SOF2 x 1/3/4 components x sampling factors {1,2}^2 per component, segment sequences (<= 3 before SOF, <= 2 after) over 9 kinds, every APPn, every width and height 1..65535 x 3 holds; WebP: VP8 all 2^14 widths/heights x 3 holds x 16 scale-bit pairs, VP8L the same (thorough: all 2^28 pairs), VP8X walking bits + byte lanes (thorough: all 2^24 per field), all flag bytes; each through the specific loader and autometa; every sequence of up to 4 (thorough 5) Loads over five small files of different formats x {specific, auto} in one process, each result compared with its file\u2019s description; distinct = distinct (format, width, height, bits, structure) descriptions")
 	var dropped, unsupported, crossOK atomic.Int64
 	var distinct sync.Map
 	ndistinct := atomic.Int64{}
@@ -276,6 +276,12 @@ func C05(tier string) {
 		}
 	})
 
+	// operation sequences: what a Load reports must not depend on earlier Loads
+	sd := 4
+	if tier == "thorough" {
+		sd = 5
+	}
+	loaderSequences(r, sd, "sequence", true, false)
 	r.Set("std_cross_validated", crossOK.Load())
 	r.Set("std_unsupported_kept", unsupported.Load())
 	r.Set("generator_files_dropped", dropped.Load())
